@@ -75,3 +75,32 @@ func noteUncontrolled(site string) {
 		s.sitesSeen.add("UNCONTROLLED "+site, 1)
 	}
 }
+
+// RangeMapValues is what maps.Values(m) is rewritten to.
+func RangeMapValues[M ~map[K]V, K cmp.Ordered, V any](m M, site string) iter.Seq[V] {
+	return func(yield func(V) bool) {
+		for _, v := range RangeMap(m, site) {
+			if !yield(v) {
+				return
+			}
+		}
+	}
+}
+
+// MapKeysSlice / MapValuesSlice replace golang.org/x/exp/maps.Keys / Values
+// (which return slices in unspecified order).
+func MapKeysSlice[M ~map[K]V, K cmp.Ordered, V any](m M, site string) []K {
+	out := make([]K, 0, len(m))
+	for k := range RangeMap(m, site) {
+		out = append(out, k)
+	}
+	return out
+}
+
+func MapValuesSlice[M ~map[K]V, K cmp.Ordered, V any](m M, site string) []V {
+	out := make([]V, 0, len(m))
+	for _, v := range RangeMap(m, site) {
+		out = append(out, v)
+	}
+	return out
+}
